@@ -1927,6 +1927,8 @@ class FunctionVerifier:
             self.obls.append(c2)
         for (s, oc) in results:
             if oc == RAISE:
+                if cd.options.get("may_raise"):
+                    continue  # the contract leaves the raising condition unspecified: it only speaks about normal returns
                 if cd.raises is not None:
                     g = self.eval_in_old(cd.raises, s)
                     self.oblige("raise-allowed", "raise", g, s)
